@@ -288,8 +288,8 @@ Proof. exact poll_every_fair_schedule_ends_ok. Qed.
 Print Assumptions c13_poll_every_fair_schedule_ends_ok.
 
 (* the widened trace checker: sound for every mode; an accepted trace of a consumer that waits for
-   the marker shows the specified stream; on traces without time-outs it is the checker of Stream.v.
-   (Completeness is proved for the blocking consumer only: c13_accepts_exact.) *)
+   the marker shows the specified stream; on traces without time-outs it is the checker of Stream.v;
+   it is exact (sound and complete) for the blocking (c13_accepts_exact) and the polling consumer. *)
 Theorem c13_xaccepts_sound : forall c m tr, xaccepts c m tr = true ->
   exists ls x, xpath c m (xinit c) ls x /\ obs_of ls = tr /\ xreach c m x /\ xfinal x.
 Proof. exact xaccepts_sound. Qed.
@@ -305,6 +305,12 @@ Print Assumptions c13_xaccepts_spec.
 Theorem c13_xaccepts_blocking : forall c tr, xaccepts c Blocking (map XEv tr) = accepts c tr.
 Proof. exact xaccepts_blocking. Qed.
 Print Assumptions c13_xaccepts_blocking.
+
+Theorem c13_xaccepts_exact_polling : forall c tr, 0 < batch c ->
+  (xaccepts c Polling tr = true <->
+   exists ls x, xpath c Polling (xinit c) ls x /\ obs_of ls = tr /\ xfinal x).
+Proof. exact xaccepts_exact_polling. Qed.
+Print Assumptions c13_xaccepts_exact_polling.
 
 Example ex_polling_trace :
   xaccepts giveup_cfg Polling
